@@ -115,6 +115,17 @@ var corpus = []string{
 	`select ?s, ?r from ?a where {?s "p"@[] ?o . optional {?o "q"@[] ?r}} order by ?r, ?s;`,
 	`select ?s, ?r, ?w from ?a where {?s "p"@[] ?o . optional {?o "q"@[] ?r} . optional {?x "zz"@[] ?w}} order by ?w, ?r;`,
 	`select ?n, ?s, ?q, ?o from ?a where {?n "_subject"@[] ?s . ?n "_predicate"@[] ?q . ?n "_object"@[] ?o};`,
+	// HAVING forms the grammar derives and only the expression builder can refuse (bare bindings, empty operands)
+	`select ?s from ?a where {?s ?p ?o} having (?s);`,
+	`select ?s from ?a where {?s ?p ?o} having (not ?s);`,
+	`select ?s from ?a where {?s ?p ?o} having not (?s);`,
+	`select ?s from ?a where {?s ?p ?o} having (?s = ?s) or (?o);`,
+	`select ?s from ?a where {?s ?p ?o} having (?s = ?s) and ?o;`,
+	`select ?s from ?a where {?s ?p ?o} having ?s;`,
+	`select ?s from ?a where {?s ?p ?o} having ((?s));`,
+	`select ?s from ?a where {?s ?p ?o} having (?s =);`,
+	`select ?s from ?a where {?s ?p ?o} having (?s = ?o) or;`,
+	`select ?s from ?a where {?s ?p ?o} having ();`,
 	// a binding that an earlier clause binds to a value of ANOTHER kind than the later position needs:
 	// an anchor binding (predicate / object position) or a time bound bound to a node, a literal, or the
 	// NULL of an OPTIONAL without match; a predicate binding bound to a node; a subject bound to a literal
